@@ -1,10 +1,22 @@
 //! C06: parsing arbitrary bytes never panics (Kani's panic/overflow/bounds checks are the oracle).
-use air::{proof::Context, FieldExtension, ProofOptions, TraceInfo};
+//! Every harness: fully symbolic byte buffer of the stated size, real parser from /repo, result
+//! forgotten (drop glue of error values is not the subject).
+use air::{
+    proof::{Commitments, Context, OodFrame, Proof, Queries, Table},
+    FieldExtension, ProofOptions, TraceInfo,
+};
+use crypto::{BatchMerkleProof, Hasher, MerkleTree};
+use fri::FriProof;
+use math::fields::{f128, f62, f64, CubeExtension, QuadExtension};
 use utils::{ByteReader, Deserializable, SliceReader};
 
+use crate::hashers::{MixHash, MD};
+use crate::toy::T;
 use crate::util::nofmt;
 
-// @ob id=C06 tier=quick req=1 to=120 funcs="ProofOptions::read_from,FieldExtension::read_from" bounds="6 bytes" sym="all 6 bytes"
+type MH = MixHash<T>;
+
+// @ob id=C06 tier=quick req=1 to=240 funcs="ProofOptions::read_from,FieldExtension::read_from" bounds="6 bytes" sym="all 6 bytes"
 #[kani::proof]
 #[kani::unwind(10)]
 #[kani::stub(alloc::fmt::format, nofmt)]
@@ -17,7 +29,7 @@ fn c06_proof_options_read_from() {
     core::mem::forget(res);
 }
 
-// @ob id=C06 tier=quick req=1 to=120 funcs="TraceInfo::read_from" bounds="8 bytes (meta <= 2 bytes readable)" sym="all 8 bytes"
+// @ob id=C06 tier=quick req=1 to=240 funcs="TraceInfo::read_from" bounds="8 bytes (meta <= 2 bytes readable)" sym="all 8 bytes"
 #[kani::proof]
 #[kani::unwind(12)]
 #[kani::stub(alloc::fmt::format, nofmt)]
@@ -27,5 +39,217 @@ fn c06_trace_info_read_from() {
     let res = TraceInfo::read_from(&mut r);
     kani::cover!(res.is_ok());
     kani::cover!(res.is_err());
+    core::mem::forget(res);
+}
+
+// @ob id=C06 tier=quick req=1 to=400 funcs="Context::read_from,Context::lde_domain_size,Context::num_modulus_bits" bounds="16 bytes" sym="all 16 bytes"
+#[kani::proof]
+#[kani::unwind(18)]
+#[kani::stub(alloc::fmt::format, nofmt)]
+fn c06_context_read_from() {
+    let bytes: [u8; 16] = kani::any();
+    let mut r = SliceReader::new(&bytes);
+    let res = Context::read_from(&mut r);
+    kani::cover!(res.is_ok());
+    if let Ok(ref c) = res {
+        // accessors the verifier calls on an untrusted context
+        let _ = c.lde_domain_size();
+        let _ = c.num_modulus_bits();
+    }
+    core::mem::forget(res);
+}
+
+// ---- two-stage parsers: stage 1 (`read_from`) over a fully symbolic small buffer; stage 2 (`parse`)
+// ---- on a container whose length prefixes are concrete (enumerated: exact, one short, one long, empty)
+// ---- and whose contents are symbolic. A symbolic count into read_many/read_vec explodes (DESIGN §1).
+
+// @ob id=C06 tier=quick req=1 to=300 funcs="Commitments::read_from" bounds="6 bytes" sym="all bytes incl. the u16 length prefix"
+#[kani::proof]
+#[kani::unwind(8)]
+#[kani::stub(alloc::fmt::format, nofmt)]
+fn c06_commitments_read_from() {
+    let bytes: [u8; 6] = kani::any();
+    let mut r = SliceReader::new(&bytes);
+    let res = Commitments::read_from(&mut r);
+    kani::cover!(res.is_ok());
+    kani::cover!(res.is_err());
+    core::mem::forget(res);
+}
+
+macro_rules! c06_commitments_parse {
+    ($name:ident, $payload:expr, $segs:expr, $layers:expr) => {
+        #[kani::proof]
+        #[kani::unwind(12)]
+        #[kani::stub(alloc::fmt::format, nofmt)]
+        fn $name() {
+            let mut bytes: [u8; $payload + 2] = kani::any();
+            bytes[0] = $payload as u8;
+            bytes[1] = 0;
+            let mut r = SliceReader::new(&bytes);
+            let c = Commitments::read_from(&mut r).unwrap();
+            let p = c.parse::<MH>($segs, $layers);
+            // 8-byte digests: exact payload = 8 * (segs + 1 + layers + 1)
+            assert!(p.is_ok() == ($payload == 8 * ($segs + $layers + 2)));
+            core::mem::forget(p);
+        }
+    };
+}
+// @ob id=C06 tier=quick req=1 to=300 name=c06_commitments_parse_exact funcs="Commitments::parse" bounds="1 segment, 0 FRI layers, exact 24-byte payload" sym="payload"
+c06_commitments_parse!(c06_commitments_parse_exact, 24, 1, 0);
+// @ob id=C06 tier=quick req=1 to=300 name=c06_commitments_parse_short funcs="Commitments::parse" bounds="2 segments, 1 FRI layer, payload one byte short" sym="payload"
+c06_commitments_parse!(c06_commitments_parse_short, 39, 2, 1);
+// @ob id=C06 tier=quick req=1 to=300 name=c06_commitments_parse_long funcs="Commitments::parse" bounds="1 segment, 1 FRI layer, payload one byte long" sym="payload"
+c06_commitments_parse!(c06_commitments_parse_long, 33, 1, 1);
+// @ob id=C06 tier=quick req=1 to=300 name=c06_commitments_parse_empty funcs="Commitments::parse" bounds="1 segment, 0 layers, empty payload" sym="-"
+c06_commitments_parse!(c06_commitments_parse_empty, 0, 1, 0);
+
+// @ob id=C06 tier=quick req=1 to=600 funcs="Table::from_bytes,Table::get_row,Table::rows" bounds="8 bytes of toy-field elements; rows, cols any in 1..=255" sym="bytes, rows, cols"
+#[kani::proof]
+#[kani::unwind(10)]
+#[kani::stub(alloc::fmt::format, nofmt)]
+fn c06_table_from_bytes() {
+    let bytes: [u8; 8] = kani::any();
+    let rows: usize = kani::any();
+    let cols: usize = kani::any();
+    // rows = number of queries (ProofOptions allows 1..=255), cols = trace width (TraceInfo allows 1..=255)
+    kani::assume(rows >= 1 && rows <= 255 && cols >= 1 && cols <= 255);
+    let t = Table::<T>::from_bytes(&bytes, rows, cols);
+    kani::cover!(t.is_ok());
+    kani::cover!(rows == 255 && cols == 255);
+    core::mem::forget(t);
+}
+
+// @ob id=C06 tier=quick req=1 to=300 funcs="Queries::read_from" bounds="10 bytes" sym="all bytes incl. both u32 length prefixes"
+#[kani::proof]
+#[kani::unwind(12)]
+#[kani::stub(alloc::fmt::format, nofmt)]
+fn c06_queries_read_from() {
+    let bytes: [u8; 10] = kani::any();
+    let mut r = SliceReader::new(&bytes);
+    let res = Queries::read_from(&mut r);
+    kani::cover!(res.is_ok());
+    kani::cover!(res.is_err());
+    core::mem::forget(res);
+}
+
+// @ob id=C06 tier=quick req=1 to=300 funcs="OodFrame::read_from" bounds="9 bytes" sym="all bytes incl. the three u16 length prefixes"
+#[kani::proof]
+#[kani::unwind(11)]
+#[kani::stub(alloc::fmt::format, nofmt)]
+fn c06_ood_frame_read_from() {
+    let bytes: [u8; 9] = kani::any();
+    let mut r = SliceReader::new(&bytes);
+    let res = OodFrame::read_from(&mut r);
+    kani::cover!(res.is_ok());
+    kani::cover!(res.is_err());
+    core::mem::forget(res);
+}
+
+// @ob id=C06 tier=quick req=1 to=600 funcs="FriProof::read_from,FriProof::num_partitions,FriProof::parse_remainder,FriProof::num_remainder_elements" bounds="0 layers; 4 remainder bytes; partitions byte any" sym="remainder bytes, partitions byte"
+#[kani::proof]
+#[kani::unwind(10)]
+#[kani::stub(alloc::fmt::format, nofmt)]
+fn c06_fri_proof_no_layers() {
+    let mut bytes: [u8; 8] = kani::any();
+    bytes[0] = 0; // layers
+    bytes[1] = 4; bytes[2] = 0; // remainder bytes
+    let mut r = SliceReader::new(&bytes);
+    let res = FriProof::read_from(&mut r);
+    kani::cover!(res.is_ok());
+    kani::cover!(res.is_err());
+    if let Ok(p) = &res {
+        let _ = p.num_partitions();
+        let _ = p.num_layers();
+        let rem = p.parse_remainder::<T>();
+        kani::cover!(rem.is_ok());
+        core::mem::forget(rem);
+    }
+    core::mem::forget(res);
+}
+
+// @ob id=C06 tier=quick req=1 to=600 funcs="MerkleTree::verify" bounds="path length 0..=4; index any usize" sym="path digests, length, index"
+#[kani::proof]
+#[kani::unwind(7)]
+#[kani::stub(alloc::fmt::format, nofmt)]
+fn c06_merkle_verify_untrusted_path() {
+    let all = [MD(kani::any()), MD(kani::any()), MD(kani::any()), MD(kani::any())];
+    let n: usize = kani::any();
+    kani::assume(n <= 4);
+    let index: usize = kani::any();
+    let res = MerkleTree::<MH>::verify(MD(kani::any()), index, &all[..n]);
+    kani::cover!(res.is_ok());
+    core::mem::forget(res);
+}
+
+// @ob id=C06 tier=quick req=1 to=600 funcs="Option<Vec<u8>>::read_from,ByteReader::read_usize,ByteReader::read_many,SliceReader::check_eor" bounds="11 bytes" sym="all bytes (length prefix over the full usize range)"
+#[kani::proof]
+#[kani::unwind(13)]
+#[kani::stub(alloc::fmt::format, nofmt)]
+fn c06_option_vec_u8() {
+    let bytes: [u8; 11] = kani::any();
+    let mut r = SliceReader::new(&bytes);
+    let res = Option::<Vec<u8>>::read_from(&mut r);
+    kani::cover!(res.is_ok());
+    core::mem::forget(res);
+}
+
+// @ob id=C06 tier=quick req=1 to=600 funcs="SliceReader::read_slice,SliceReader::read_vec,SliceReader::check_eor,ByteReader::read_string" bounds="4 bytes; requested length any usize" sym="bytes, length"
+#[kani::proof]
+#[kani::unwind(6)]
+#[kani::stub(alloc::fmt::format, nofmt)]
+fn c06_slice_reader_any_len() {
+    let bytes: [u8; 4] = kani::any();
+    let mut r = SliceReader::new(&bytes);
+    let _ = r.read_u8();
+    let n: usize = kani::any();
+    let ok = r.check_eor(n).is_ok();
+    let s = r.read_slice(n);
+    assert!(s.is_ok() == ok);
+    kani::cover!(s.is_ok());
+    kani::cover!(s.is_err());
+}
+
+// @ob id=C06 tier=quick req=1 to=600 funcs="f64::BaseElement::read_from,f62::BaseElement::read_from,f128::BaseElement::read_from,QuadExtension::read_from,CubeExtension::read_from" bounds="exact element size" sym="all bytes"
+#[kani::proof]
+#[kani::unwind(4)]
+#[kani::stub(alloc::fmt::format, nofmt)]
+fn c06_field_elements_read_from() {
+    let b: [u8; 48] = kani::any();
+    let mut r = SliceReader::new(&b);
+    let a = f64::BaseElement::read_from(&mut r);
+    core::mem::forget(a);
+    let a = f62::BaseElement::read_from(&mut r);
+    core::mem::forget(a);
+    let a = f128::BaseElement::read_from(&mut r);
+    kani::cover!(a.is_ok());
+    core::mem::forget(a);
+    let mut r = SliceReader::new(&b);
+    let a = QuadExtension::<f64::BaseElement>::read_from(&mut r);
+    core::mem::forget(a);
+    let a = CubeExtension::<f62::BaseElement>::read_from(&mut r);
+    kani::cover!(a.is_err());
+    core::mem::forget(a);
+}
+
+// vacuity twin for the family: the same driver shape with a final assert(false) must be violated
+// @ob id=C06 tier=quick req=1 to=240 expect=fail desc="vacuity twin: reachability of the end of a parser harness"
+#[kani::proof]
+#[kani::unwind(10)]
+#[kani::stub(alloc::fmt::format, nofmt)]
+fn c06_vacuity_twin() {
+    let bytes: [u8; 6] = kani::any();
+    let mut r = SliceReader::new(&bytes);
+    let res = FieldExtension::read_from(&mut r);
+    core::mem::forget(res);
+    assert!(false);
+}
+
+// @ob id=C06 tier=thorough req=0 to=3000 mem=24 funcs="Proof::from_bytes" bounds="64-byte buffer" sym="all bytes"
+#[kani::proof]
+#[kani::unwind(66)]
+#[kani::stub(alloc::fmt::format, nofmt)]
+fn c06_whole_proof_from_bytes() {
+    let bytes: [u8; 64] = kani::any();
+    let res = Proof::from_bytes(&bytes);
     core::mem::forget(res);
 }
